@@ -34,13 +34,13 @@ def cases(tier, rng, dist):
         if mode < 0.5:   # observed row is a row of the matrix (rotation argument)
             i0 = rng.randrange(B)
             yield {"f": "npc", "distr": [[str(v) for v in r] for r in m], "obs_row": i0, "p": None, "comb": spec,
-                   "plus1": False if rng.random() < 0.7 else True, "dtype": rng.choice(["float", "int"])}
+                   "plus1": False if rng.random() < 0.7 else True, "dtype": rng.choice(["float", "int", "uint8", "uint64"])}
         else:
             p = [str(Fraction(rng.randint(1, 8), 8)) for _ in range(n)]
             if spec == "liptak":
                 p = [str(rng.choice([Fraction(rng.randint(1, 7), 8), 1 - Fraction(1, 2**rng.choice([10, 20, 30])), Fraction(9999, 10000)])) for _ in range(n)]
             yield {"f": "npc", "distr": [[str(v) for v in r] for r in m], "obs_row": None, "p": p, "comb": spec,
-                   "plus1": rng.random() < 0.5, "dtype": rng.choice(["float", "int"])}
+                   "plus1": rng.random() < 0.5, "dtype": rng.choice(["float", "int", "uint8", "uint64"])}
     for _ in range(N // 2):
         reps, n = rng.randint(1, 8), rng.randint(2, 3)
         t = gen_matrix(rng, reps + 1, n, rng.randint(0, 3))
@@ -89,7 +89,7 @@ def run(c):
     if c["f"] == "sim":
         return run_sim(c)
     m, p = pvals_of(c)
-    dt = float if c["dtype"] == "float" else np.int64
+    dt = {"float": float, "int": np.int64, "uint8": np.uint8, "uint64": np.uint64}[c["dtype"]]
     d = interned(np.array([[float(v) for v in r] for r in m]).astype(dt))
     d0 = d.copy()
     pv = interned(np.array([float(x) for x in p]))
